@@ -222,6 +222,19 @@ def call_lib(I, name, args, kwargs, node):
             else:
                 return Top("get_in through non-dict")
         return cur
+    if name in ("itertools.groupby",):
+        seq = seq_elts(I, a[0], node)
+        keyf = a[1] if len(a) > 1 else kwargs.get("key")
+        out = []
+        for item in seq:
+            k = I.call(keyf, [item], {}, node) if keyf is not None else item
+            if not isinstance(k, Const):
+                raise ShapeError("itertools.groupby key undecidable")
+            if out and out[-1][0].v == k.v:
+                out[-1][1].elts.append(item)
+            else:
+                out.append((k, ListLit([item])))
+        return ListLit([TupS([k, grp]) for k, grp in out])
     if name == "operator.or_":
         return I.dict_union(a[0], a[1])
     if name.startswith("builtins."):
@@ -361,6 +374,9 @@ def merge_with(I, fn, dicts, node):
 
 
 def builtin(I, name, a, kwargs, node):
+    if name.startswith(("str.", "dict.", "list.", "bytes.")) and a:
+        # unbound method used as a function: str.lower(x) == x.lower()
+        return call_method(I, a[0], name.split(".", 1)[1], list(a[1:]), kwargs, node)
     if name == "isinstance":
         return isinstance_rule(I, a[0], a[1])
     if name == "dict":
